@@ -40,10 +40,14 @@ StepWk(e) ==
   /\ prev' = [n |-> e.n, wy |-> e.wy, w |-> e.w, key |-> e.key]
   /\ IF Has(e, "exc") THEN Rej("week_year_accessors_do_not_raise") ELSE WkChecks(e, contiguous)
 
+\* a navigation result inside the calendar's range must be returned; outside it the call must raise
+NavOk(e, got, raised, want) == IF want >= e.min_day /\ want <= e.max_day THEN ~raised /\ got = want ELSE raised
 StepNav(e) ==
   /\ prev' = NoPrev
-  /\ Check(e.next = NextDow(e.n, e.dow) /\ e.previous = PrevDow(e.n, e.dow), "next_previous_nearest_strictly_later_earlier")
-  /\ Check(e.next_or_same = NextOrSame(e.n, e.dow) /\ e.previous_or_same = PrevOrSame(e.n, e.dow), "or_same_forms")
+  /\ Check(NavOk(e, e.next, e.next_raised, NextDow(e.n, e.dow)) /\ NavOk(e, e.previous, e.previous_raised, PrevDow(e.n, e.dow)),
+           "next_previous_nearest_strictly_later_earlier")
+  /\ Check(NavOk(e, e.next_or_same, e.next_or_same_raised, NextOrSame(e.n, e.dow))
+           /\ NavOk(e, e.previous_or_same, e.previous_or_same_raised, PrevOrSame(e.n, e.dow)), "or_same_forms")
 StepNth(e) ==
   /\ prev' = NoPrev
   /\ LET first == GregDay(e.y, e.m, 1) len == GJMonthLen(GregLeap(e.y), e.m) IN
